@@ -53,6 +53,10 @@ type Case struct {
 	ViaText   bool  `json:"viaText,omitempty"`
 	FactsFor  []int `json:"factsFor,omitempty"`
 	FactsLast bool  `json:"factsLast,omitempty"`
+	// TwoVars: odd mentions of a body are about a second variable Y; NegFirst: negated atoms are written before
+	// the atoms that bind their variables (ViaText only).
+	TwoVars  bool `json:"twoVars,omitempty"`
+	NegFirst bool `json:"negFirst,omitempty"`
 }
 
 // text prints the rule set as a source unit (ViaText).
@@ -69,23 +73,41 @@ func (c Case) text() string {
 			facts = append(facts, fmt.Sprintf("p%d(2).", i))
 		}
 	}
-	for _, r := range c.Rules {
-		var pos, rest []string
-		for _, m := range r.Body {
+	for ri, r := range c.Rules {
+		// Two variables: mention j is about X when j is even and about Y when it is odd; each variable that is
+		// used gets a binding positive atom (an extensional one is added where the body has none for it).
+		var pos, rest, negs []string
+		bound := map[string]bool{}
+		used := map[string]bool{"X": true}
+		for j, m := range r.Body {
+			v := "X"
+			if c.TwoVars && j%2 == 1 {
+				v = "Y"
+			}
+			used[v] = true
 			name := sym(m.Pred).Symbol
 			switch m.Kind {
 			case kPos, kTPos:
-				pos = append(pos, name+"(X)")
+				pos = append(pos, name+"("+v+")")
+				bound[v] = true
 			case kNeg, kTNeg:
-				rest = append(rest, "!"+name+"(X)")
+				negs = append(negs, "!"+name+"("+v+")")
 			case kBuiltin:
-				rest = append(rest, ":lt(X, 3)")
+				rest = append(rest, ":lt("+v+", 3)")
 			}
 		}
-		if len(pos) == 0 {
-			pos = []string{"e1(X)"} // binds X; extensional, no dependency
+		for _, v := range []string{"X", "Y"} {
+			if used[v] && !bound[v] {
+				pos = append(pos, map[string]string{"X": "e1(X)", "Y": "e2(Y)"}[v]) // extensional, no dependency
+			}
 		}
-		body := strings.Join(append(pos, rest...), ", ")
+		lits := append(append(append([]string{}, pos...), negs...), rest...)
+		if c.NegFirst && (ri%2 == 0 || !c.TwoVars) {
+			// negated atoms written before the atoms that bind their variables (analysis delays them; a built-in
+			// written early would be rejected, so those stay behind)
+			lits = append(append(append([]string{}, negs...), pos...), rest...)
+		}
+		body := strings.Join(lits, ", ")
 		switch {
 		case r.Agg:
 			rules = append(rules, fmt.Sprintf("p%d(N) :- %s |> do fn:group_by(), let N = fn:count().", r.Head, body))
@@ -433,6 +455,8 @@ func genCase(t *rapid.T) Case {
 			}
 		}
 		c.FactsLast = rapid.Bool().Draw(t, "factsLast")
+		c.TwoVars = rapid.Bool().Draw(t, "twoVars")
+		c.NegFirst = rapid.Bool().Draw(t, "negFirst")
 	}
 	return c
 }
